@@ -16,7 +16,7 @@ From GT Require Import Base.UTree Spec.Obs Spec.GenShape Spec.Counting Model.Rer
      Model.TreeGen Model.Sampling
      Proofs.SamplingBase Proofs.SamplingPerm Proofs.SamplingRepl Proofs.SamplingRes Proofs.SamplingShuffle
      Proofs.SamplingCode Proofs.SamplingRefute Proofs.TreeGenUnif Proofs.TreeGenUnif2
-     Proofs.SamplingShuffle2 Proofs.SamplingEdge.
+     Proofs.SamplingShuffle2 Proofs.SamplingEdge Proofs.TreeGenRooted Proofs.StretchFive.
 Import ListNotations.
 Local Close Scope Q_scope.
 
@@ -252,3 +252,64 @@ Print Assumptions C20_reservoir_no_item.
 Theorem C20_sample_replace_no_item : forall (A : Type) k, @sample_replace A k [] [] = Some (repeat None k).
 Proof. exact @sample_replace_no_item. Qed.
 Print Assumptions C20_sample_replace_no_item.
+
+(** * the rooted "uniform" generator, exact form of the open finding (for every n >= 3) *)
+(** the first two tips stay on different sides of the root: no clade of the result contains both,
+    so e.g. no topology with the cherry (Tip0,Tip1) is ever produced *)
+Theorem C20_uniform_rooted_separates :
+  forall n cs ls t, 3 <= n -> in_bounds cs (uniform_bounds n true) -> uniform_tree n true cs ls = GOk t ->
+    forall A, In A (topo_key true t) -> ~ (In (tip_name 0) A /\ In (tip_name 1) A).
+Proof. exact uniform_rooted_separates. Qed.
+Print Assumptions C20_uniform_rooted_separates.
+
+(** and some rooted labelled topology of the enumerator's list is never produced *)
+Theorem C20_uniform_rooted_misses_refuted :
+  forall n ts, 3 <= n -> all_topologies n true (map tip_name (seq 0 n)) = Ok ts ->
+    exists key, In key (map (topo_key true) ts) /\
+      forall cs ls t, in_bounds cs (uniform_bounds n true) -> uniform_tree n true cs ls = GOk t ->
+                      topo_key true t <> key.
+Proof. exact uniform_rooted_misses. Qed.
+Print Assumptions C20_uniform_rooted_misses_refuted.
+
+(** * ShuffleTips: exactly one of the n! choice vectors is the identity (the clause "not the same
+    arrangement for every seed" of the oracle: the identity has probability 1/n!) *)
+Theorem C20_shuffle_identity_count :
+  forall t, wf t = true -> 2 <= degree t -> NoDup (all_tip_names t) ->
+    count_where (fun cs => if list_eq_dec String.string_dec (tip_names (shuffle_tips t cs)) (all_tip_names t) then true else false)
+                (all_choices (shuffle_bounds t)) = 1 /\
+    length (all_choices (shuffle_bounds t)) = fact (length (all_tip_names t)).
+Proof. exact shuffle_identity_count. Qed.
+Print Assumptions C20_shuffle_identity_count.
+
+(** * the hypotheses are satisfiable (instances computed by vm_compute) *)
+Example C20_example_reservoir :
+  In [0; 2] (subsets 2 (seq 0 4)) /\
+  count_where (fun cs => out_set_is [0; 2] (sample_noreplace 2 (seq 0 4) cs))
+              (all_choices (reservoir_bounds code_bound 2 4)) = fact 2 /\
+  length (all_choices (reservoir_bounds code_bound 2 4)) = 12.
+Proof. vm_compute. repeat split; auto. Qed.
+Print Assumptions C20_example_reservoir.
+
+Example C20_example_replace :
+  in_bounds [1; 0] (repeat 3 2) /\
+  count_where (fun cs => out_is [1; 0] (sample_replace 2 (seq 0 3) cs)) (all_choices (replace_bounds 2 3)) = fact 2 ^ 2.
+Proof. vm_compute. repeat split; repeat constructor. Qed.
+Print Assumptions C20_example_replace.
+
+Example C20_example_shuffle :
+  let t := UNode EmptyString [] [Some (e0, UNode "a" [] [None]); Some (e0, UNode "b" [] [None]);
+                                 Some (e0, UNode "c" [] [None])]%string in
+  wf t = true /\ 2 <= degree t /\ NoDup (all_tip_names t) /\
+  map (fun cs => tip_names (shuffle_tips t cs)) (all_choices (shuffle_bounds t)) =
+  [["c"; "a"; "b"]; ["b"; "c"; "a"]; ["b"; "a"; "c"]; ["c"; "b"; "a"]; ["a"; "c"; "b"]; ["a"; "b"; "c"]]%string.
+Proof.
+  vm_compute. repeat split; auto.
+  repeat constructor; simpl; intuition discriminate.
+Qed.
+Print Assumptions C20_example_shuffle.
+
+Example C20_example_uniform_unrooted :
+  in_bounds [0; 1; 4] (uniform_bounds 5 false) /\
+  exists t, uniform_tree 5 false [0; 1; 4] [] = GOk t.
+Proof. split; [vm_compute; repeat constructor|eexists; vm_compute; reflexivity]. Qed.
+Print Assumptions C20_example_uniform_unrooted.
